@@ -40,142 +40,6 @@ theorem fact_authenticate_steps :
     Facts.C15.authenticateSteps = ["peer.Certificate == nil", "err != nil", "err != nil", "SET-AUTHENTICATED"] ∧
     Facts.C15.authenticateSetsFlag = true := by decide
 
-theorem request_no_bytes {m : Msg} (h : isRequest m = true) : payloadBytes m = [] := by
-  cases m <;> simp [isRequest] at h <;> simp [payloadBytes]
-
-theorem sendRequest_clean (cfg : Cfg) (n : Node) (peer : Nat) (data : ConvData) (mk : Cid → Msg)
-    (hmk : ∀ c, isRequest (mk c) = true) (o : Nat × Msg) (h : o ∈ (sendRequest cfg n peer data mk).out) :
-    payloadBytes o.2 = [] := by
-  obtain ⟨cid, rfl⟩ := sendRequest_out cfg n peer data mk o h
-  exact request_no_bytes (hmk cid)
-
-theorem sendState_clean (cfg : Cfg) (n : Node) (peer : Nat) (x : Ref) (c : Nat) (o : Nat × Msg)
-    (h : o ∈ (sendState cfg n peer x c).out) : payloadBytes o.2 = [] :=
-  sendRequest_clean cfg n peer _ _ (fun _ => rfl) o h
-
-theorem sendListQuery_clean (cfg : Cfg) (n : Node) (peer : Nat) (refs : List Ref) (o : Nat × Msg)
-    (h : o ∈ (sendListQuery cfg n peer refs).out) : payloadBytes o.2 = [] :=
-  sendRequest_clean cfg n peer _ _ (fun _ => rfl) o h
-
-theorem sendRangeQuery_clean (cfg : Cfg) (n : Node) (peer : Nat) (a b : Nat) (o : Nat × Msg)
-    (h : o ∈ (sendRangeQuery cfg n peer a b).out) : payloadBytes o.2 = [] :=
-  sendRequest_clean cfg n peer _ _ (fun _ => rfl) o h
-
-theorem gossip_clean (cfg : Cfg) (n : Node) (peer : Peer) (x : Ref) (lc : Nat) (refs : List Ref) (o : Nat × Msg)
-    (h : o ∈ (handleGossip cfg n peer x lc refs).out) : payloadBytes o.2 = [] := by
-  unfold handleGossip at h
-  simp only at h
-  split at h
-  · cases h
-  · split at h
-    · exact sendListQuery_clean _ _ _ _ o h
-    · exact sendState_clean _ _ _ _ _ o h
-
-theorem state_clean (cfg : Cfg) (n : Node) (peer : Peer) (cid : Cid) (x : Ref) (lc : Nat) (o : Nat × Msg)
-    (h : o ∈ (handleState cfg n peer cid x lc).out) : payloadBytes o.2 = [] := by
-  unfold handleState at h
-  split at h
-  · cases h
-  · simp only [List.mem_singleton] at h; subst h; rfl
-
-theorem set_clean (cfg : Cfg) (env : Env) (n : Node) (peer : Peer) (cid : Cid) (a b : Nat) (i : IbltV) (o : Nat × Msg)
-    (h : o ∈ (handleTransactionSet cfg env n peer cid a b i).out) : payloadBytes o.2 = [] := by
-  unfold handleTransactionSet at h
-  split at h
-  · cases h
-  · simp only at h
-    split at h
-    · cases h
-    · split at h
-      · exact sendRangeQuery_clean _ _ _ _ _ o h
-      · exact sendState_clean _ _ _ _ _ o h
-    · split at h
-      · exact sendListQuery_clean _ _ _ _ o h
-      · split at h
-        · split at h
-          · exact sendRangeQuery_clean _ _ _ _ _ o h
-          · exact sendRangeQuery_clean _ _ _ _ _ o h
-        · cases h
-
-theorem pq_no_bytes {o : Nat × Msg} (h : ∃ r, o.2 = .payloadQuery r) : payloadBytes o.2 = [] := by
-  obtain ⟨r, h⟩ := h; rw [h]; rfl
-
-theorem txlist_clean (cfg : Cfg) (env : Env) (n : Node) (peer : Peer) (cid : Cid) (a b : Nat) (txs : List NetTx) (o : Nat × Msg)
-    (h : o ∈ (handleTransactionList cfg env n peer cid a b txs).out) : payloadBytes o.2 = [] := by
-  unfold handleTransactionList at h
-  split at h
-  · cases h
-  · split at h
-    · cases h
-    · rename_i ps _
-      simp only at h
-      split at h
-      · exact pq_no_bytes (addLoop_out cfg env ps n o h)
-      · exact pq_no_bytes (addLoop_out cfg env ps n o h)
-      · simp only [List.mem_append] at h
-        rcases h with h | h
-        · exact pq_no_bytes (addLoop_out cfg env ps n o h)
-        · exact sendState_clean _ _ _ _ _ o h
-      · exact pq_no_bytes (addLoop_out cfg env ps n o h)
-
-
-/-- what `handleTransactionPayloadQuery` may answer with data -/
-theorem payloadQuery_release (env : Env) (n : Node) (peer : Peer) (ref : Ref) (o : Nat × Msg)
-    (h : o ∈ (handleTransactionPayloadQuery env n peer ref).out) :
-    o = (peer.key, .payload ref none) ∨
-    ∃ tx p, getTx n.dag ref = some tx ∧ readPayload n tx.payloadHash = some p ∧ o = (peer.key, .payload ref (some p)) ∧
-      (tx.pal ≠ [] → peer.authenticated = true ∧ ∃ dids, decryptPAL env n tx.pal = .pal dids ∧ peer.did ∈ dids) := by
-  unfold handleTransactionPayloadQuery at h
-  split at h
-  · simp only [emptyPayload, List.mem_singleton] at h; exact Or.inl h
-  · rename_i tx htx
-    simp only at h
-    have hrel : ∀ (hyp : tx.pal ≠ [] → peer.authenticated = true ∧ ∃ dids, decryptPAL env n tx.pal = .pal dids ∧ peer.did ∈ dids),
-        o ∈ (match readPayload n tx.payloadHash with
-              | none => ({ node := n, ret := "err:payload-not-found" } : HR)
-              | some p => { node := n, out := [(peer.key, .payload ref (some p))] }).out →
-        ∃ tx p, getTx n.dag ref = some tx ∧ readPayload n tx.payloadHash = some p ∧ o = (peer.key, .payload ref (some p)) ∧
-          (tx.pal ≠ [] → peer.authenticated = true ∧ ∃ dids, decryptPAL env n tx.pal = .pal dids ∧ peer.did ∈ dids) := by
-      intro hyp ho
-      split at ho
-      · cases ho
-      · rename_i p hp
-        simp only [List.mem_singleton] at ho
-        exact ⟨tx, p, htx, hp, ho, hyp⟩
-    split at h
-    · rename_i hpal
-      split at h
-      · simp only [emptyPayload, List.mem_singleton] at h; exact Or.inl h
-      · rename_i hauth
-        split at h
-        · simp only [emptyPayload, List.mem_singleton] at h; exact Or.inl h
-        · simp only [emptyPayload, List.mem_singleton] at h; exact Or.inl h
-        · rename_i dids hdec
-          split at h
-          · simp only [emptyPayload, List.mem_singleton] at h; exact Or.inl h
-          · rename_i hmem
-            refine Or.inr (hrel (fun _ => ⟨by simpa using hauth, dids, hdec, ?_⟩) h)
-            simpa using hmem
-    · rename_i hpal
-      refine Or.inr (hrel (fun hne => absurd ?_ hne) h)
-      simpa using hpal
-
-
-theorem payload_out_nil (n : Node) (ref : Ref) (data : Option Payload) : (handleTransactionPayload n ref data).out = [] := by
-  unfold handleTransactionPayload
-  split
-  · rfl
-  · split
-    · rfl
-    · split
-      · rfl
-      · split
-        · rfl
-        · split
-          · rfl
-          · simp only
-            split <;> rfl
-
 /-- every message a handler hands to `Connection.Send` (including the immediate re-attempt of the payload scheduler) -/
 def allOut (env : Env) (r : HR) : Out := r.out ++ retryOut env r.node r.retry
 
@@ -303,33 +167,6 @@ theorem private_payload_release_sound (cfg : Cfg) (env : Env) (n : Node) (peer :
 
 
 /-! ### "could decrypt" ⇔ "is on the list", for PALs produced by `PAL.Encrypt` under the ECIES contract -/
-
-theorem tryCiphers_honest (env : Env) (keyOf : String → String) (cipherFor : String → Nat) (pal : List String)
-    (hh : HonestPal env keyOf cipherFor pal) (hinj : ∀ a b, keyOf a = keyOf b → a = b) (d₀ : String) :
-    ∀ (suffix : List String), (∀ d ∈ suffix, d ∈ pal) →
-      tryCiphers env [⟨keyOf d₀, true⟩] (suffix.map cipherFor) =
-        if d₀ ∈ suffix then some (.ok (pal.map some)) else none := by
-  intro suffix
-  induction suffix with
-  | nil => intro _; simp [tryCiphers]
-  | cons d ds ih =>
-    intro hsub
-    have hd := hh d (hsub d List.mem_cons_self) (keyOf d₀)
-    have ih' := ih (fun x hx => hsub x (List.mem_cons_of_mem _ hx))
-    simp only [List.map_cons, tryCiphers, tryKeys, if_true]
-    rw [hd]
-    by_cases hk : keyOf d₀ = keyOf d
-    · have : d₀ = d := hinj _ _ hk
-      subst this
-      simp
-    · have hne : d₀ ≠ d := fun h => hk (by rw [h])
-      simp only [hk, if_false, ih']
-      simp [hne]
-
-theorem parseDids_some (l : List String) : parseDids (l.map some) = some l := by
-  induction l with
-  | nil => rfl
-  | cons x xs ih => simp [parseDids, ih]
 
 /-- For a participant list encrypted by `PAL.Encrypt` (one ciphertext per participant, ECIES contract), a node
     that holds exactly its own key agreement key decrypts the PAL iff its DID is on the list. The gap: a PAL header
